@@ -1,7 +1,6 @@
 package props
 
 import (
-	"time"
 	"fmt"
 	nurl "net/url"
 	"os"
@@ -9,6 +8,7 @@ import (
 	"strings"
 	"sync"
 	"testing"
+	"time"
 
 	distiller "github.com/markusmobius/go-domdistiller"
 	"golang.org/x/net/html"
@@ -22,7 +22,7 @@ func init() { register("C12", checkC12) }
 type c12Job struct {
 	Doc    int  `json:"doc"`
 	Opt    int  `json:"opt"`
-	Reader bool `json:"reader"` // the call is ApplyForReader on the document's bytes instead of Apply on the shared tree
+	Reader bool `json:"reader"`  // the call is ApplyForReader on the document's bytes instead of Apply on the shared tree
 	ViaURL bool `json:"via_url"` // the call is ApplyForURL against the loopback server (with the shared options)
 }
 
